@@ -29,6 +29,14 @@ fn final_store(case: &StaticCase) -> RefStore {
     s
 }
 
+/// The reference semantics enumerates all subsets: a case with more live arguments than any
+/// generator draws can only come from the shrinker (e.g. after it dropped the removals of a heavily
+/// over-built framework) and is skipped instead of being evaluated.
+pub const MAX_LIVE_FOR_REFSEM: usize = 14;
+pub fn too_big_for_refsem(case: &StaticCase) -> bool {
+    final_store(case).live.len() > MAX_LIVE_FOR_REFSEM
+}
+
 /// Drops queries whose arguments are not live (after shrinking) and returns the normalised case.
 pub fn normalise(case: &StaticCase) -> StaticCase {
     let s = final_store(case);
@@ -57,6 +65,10 @@ pub fn spread(store: &RefStore, args: &[L]) -> &'static str {
 
 /// Executes a static case and checks every answer against RefSem.
 pub fn eval_static(prop: &str, case: &StaticCase, r: &mut RunResult) {
+    if too_big_for_refsem(case) {
+        r.skipped = Some("more live arguments than the reference semantics enumerates (shrinker artefact)".into());
+        return;
+    }
     let case = normalise(case);
     let out = exec_static(&case, ExecOpts::default());
     let mut truth = Truth::of(&out.store);
